@@ -40,7 +40,7 @@ CFG = dict(
     rule="2 corpus cases (minimal profile-pass witness, iptables and nftables) + 14% stride-conflict layouts (one group of 11-17 enforced policies with staged ones interleaved; a chosen packet first matches allow/pass in enforced policy 6-10 or 11-15 and a conflicting rule in enforced policy 11 or 16, nothing else matches; later tier / profile deciding the other way) + generated endpoints: 0-4 tiers (default action Deny / Pass / unset) x 0-12 policies per tier (GNP, NP, KNP and the three staged "
          "kinds; 22% of cases have tiers of 5-12 policies so that group chains cross the 5-policy return stride once or twice), policies "
          "split into groups at random (including all-staged, single-policy and empty groups), 0-3 rules per policy and direction, "
-         "0-3 profiles (30% of cases allow Pass rules inside profiles), workload endpoints (admin up/down, VXLAN/IPIP from workloads allowed or not), host endpoints (failsafe jump) "
+         "0-3 profiles (30% of cases allow Pass rules inside profiles), workload endpoints (admin up/down, 35% with QoS controls: packet rate and/or connection limit per direction, VXLAN/IPIP from workloads allowed or not), host endpoints (failsafe jump) "
          "the forward chains of host endpoints (no profiles; allowed outright without tiers) and their raw (untracked policy, NOTRACK) and "
          "mangle (pre-DNAT) chains (no end-of-tier default, no profiles), "
          "ingress and egress, IPv4 and IPv6, iptables and nftables, 4 mark layouts, flow logs on/off, DROP/REJECT, filter allow action "
@@ -51,7 +51,7 @@ CFG = dict(
     trusted=["Coq 8.16.1 kernel + vm_compute",
              "Common/Ipt.v match_one/apply_mark/run as the meaning of iptables/nftables rules, jumps and returns (kernel evaluation)",
              "Common/PolicyRef.v endpoint_verdict as the meaning of tiers, staged policies, profiles",
-             "harness/C09/cmd/parse.go: text->AST grammar (C08's, plus jump/goto, conntrack state, NOTRACK)",
+             "harness/C09/cmd/parse.go: text->AST grammar (C08's, plus jump/goto, conntrack state, NOTRACK, xt_limit / nft limit rate over, connlimit / ct count over, tcp SYN)",
              "hand-written model coq/theories/C09/Model.v (+ C08/Model.v render_rule) tied to felix/rules/endpoints.go and policy.go by this "
              "correspondence run (structural equality of every chain)"],
     classify=classify,
@@ -62,7 +62,8 @@ CFG = dict(
                  "per-rule correctness of the rendering is the hypothesis rule_ok (C08): proved for rules with at most two positive match "
                  "blocks on the pinned tree and for all rules with fixes/C08-scratch-bit.patch",
                  "chain names are distinct (hash collisions of GetLengthLimitedID / group UIDs excluded)",
-                 "QoS controls (packet rate / connection limits) are not rendered (qosControls = nil)",
+                 "QoS packet-rate / connection-limit conditions and the TCP SYN test are oracles (MOther) that do not read the mark "
+                 "(other_unmarked); for case evaluation: source port 5000 = over the rate, 40000 = over the connection limit",
                  "failsafe chains are empty (no failsafe ports configured)",
                  "the model variant (ec_profile_fix) is the one the driver probes from the tree: on the pinned tree profile chains are entered "
                  "with a possibly stale pass mark and c09_endpoint_verdict excludes Pass rules inside profiles "
